@@ -64,6 +64,7 @@ def extras(rng):
     return {"hook_src": rng.choice(["config", "cli"]), "tracking": rng.random() < 0.7,
             "old_tag": rng.choice([None, "1.2.0", "1.2.3", "1.3.0", "1.3.0"]), "ignore_vcs_tag": rng.random() < 0.12,
             "novcs": rng.random() < 0.06,
+            "noise": rng.choice([[], [], [], ["-v"], ["--pin-increments"], ["--tag-scope", "global"], ["--tag", "final"]]),
             "syntax": rng.choice(["toml", "cfg"])}
 
 
@@ -131,6 +132,7 @@ def build_world(cfg):
         argv.append("--no-fetch")
     if cfg["ignore_vcs_tag"]:
         argv.append("--ignore-vcs-tag")
+    argv += list(cfg.get("noise", []))     # flags that have nothing to do with the VCS steps
     return d, repo, plan, argv, cfgname
 
 
